@@ -1,5 +1,6 @@
 """C07 - navigation is history-independent.  Rules FUNNEL, DEP, BOUNDS, BIND."""
 import ast
+import re
 from ..core import rel, AnalysisError, norm, dotted, call_name, walk_no_nested, is_self_attr
 from .. import flow
 from .listing_common import binding, listing_effects, internal_fns, SIMS
@@ -270,6 +271,26 @@ def rule_bounds(run):
                          % (arr, p), where=fi.where())
     check_nearest('set_time', 'fulltimes')
     check_nearest('set_step', 'fullsteps')
+    # `argmin(abs(array - target))` is only "nearest" in signed arithmetic: an unsigned array wraps for every entry below the target
+    cls = prog.cls('t2listing', 't2listing')
+    key = 't2listing :: time / step arrays are signed (abs(x - target) must not wrap)'
+    badnode = None
+    nsites = 0
+    for m in cls.methods.values():
+        for st in ast.walk(m.node):
+            if isinstance(st, ast.Assign) and any(isinstance(t, ast.Attribute) and t.attr in ('times', 'fulltimes', 'steps', 'fullsteps', '_times', '_steps')
+                                                  for tt in st.targets for t in ast.walk(tt)):
+                nsites += 1
+                for x in ast.walk(st.value):
+                    txt = None
+                    if isinstance(x, ast.keyword) and x.arg == 'dtype': txt = norm(x.value)
+                    if isinstance(x, ast.Call) and call_name(x) == 'astype' and x.args: txt = norm(x.args[0])
+                    if txt and re.search(r"uint|'u[1248]'|\"u[1248]\"|ubyte|ushort|uintc|ulonglong", txt): badnode = (m, st, txt)
+    if badnode:
+        m, st, txt = badnode
+        run.violated(key, '`%s` makes the array unsigned (%s): in set_time / set_step `abs(array - target)` wraps around for every result below the '
+                     'target, so argmin picks the first result at or above it instead of the nearest' % (norm(st)[:90], txt), where=m.where(st))
+    else: run.ok(key, {'assignments examined': nsites})
 
 
 def check(run):
